@@ -556,6 +556,10 @@ class Gen(object):
             op['ncb'] = ncb
             if r.random() < 0.25:
                 op['cb_sites'] = [self.some_sites() if r.random() < 0.7 else None for _ in range(ncb)]
+            elif self.p.prop == 'C04' and 'F8' in self.p.faults and shape is None and r.random() < 0.25 and \
+                    'n_int' not in op and 'dtype' not in op:
+                # F8 at construction time: the handler writes into the object from inside the constructor
+                op['ctor_write'] = self.scalar_spec(self.value(fmt, rounding, r.choice(['hi+', 'lo-', 'inexact', 'far'])))
         if r.random() < 0.06 and self.w.template is None:
             # the same format given through n_int and one other size
             s, nw, nf = fmt
@@ -2085,6 +2089,14 @@ class Gen(object):
             return self.g_new(fmt=[r.random() < 0.6, r.randint(2, 12), r.randint(0, 6)])
         op = {'op': 'arith', 'f': 'pow', 'a': self.cands().index(i), 'b': {'val': ['i', r.randint(0, 3)]},
               'route': r.choice(['op', 'op', 'fn', 'np'])}
+        if r.random() < 0.3:
+            # an exponent that is a list / tuple / array of small integers (one per element, or broadcast)
+            sh = tuple(np.asarray(self.w.slots[i].obj.val).shape)
+            n = sh[-1] if sh else r.randint(1, 3)
+            if 0 < n <= 4:
+                es = [r.randint(0, 3) for _ in range(n)]
+                op['b'] = {'val': r.choice([['l', [['i', e] for e in es]], ['t', [['i', e] for e in es]],
+                                           ['a', 'int64', [n], [[e, 0] for e in es]]])}
         if op['route'] == 'fn' and r.random() < 0.5:
             op['sizing'] = r.choice(SIZINGS)
         return op
